@@ -57,6 +57,8 @@ type cbInfo struct {
 	names     map[int64]string
 	S, T, R   int64
 	lockRoots []*ssa.Function
+	// further fields by role
+	fallbackF, nextF, metricsF, onTrippedF, onStandbyF string
 }
 
 func resolveCB(p *Prog, r *Report, rule string) *cbInfo {
@@ -76,10 +78,45 @@ func resolveCB(p *Prog, r *Report, rule string) *cbInfo {
 		return nil
 	}
 	cb.stateF = fs[0]
-	cb.untilF, cb.rcF, cb.lastF = "until", "rc", "lastCheck"
-	for _, f := range []string{cb.untilF, cb.rcF, cb.lastF} {
-		if structFieldType(cb.typ, f) == nil {
-			r.Anchor(rule, "cbreaker.CircuitBreaker."+f, "field not found")
+	// fields by role (names of the reference tree first): the deadline is the time field the state setter stores,
+	// the next-check instant the other time field, the ramp controller the field of that type
+	storedWithState := map[string]bool{}
+	for _, m := range p.Methods(cb.typ) {
+		if len(FieldStores(m, cb.typ, cb.stateF)) == 0 {
+			continue
+		}
+		for _, b := range m.Blocks {
+			for _, in := range b.Instrs {
+				if s2, ok := in.(*ssa.Store); ok {
+					if n, f, _, ok := fieldOf(s2.Addr); ok && n == cb.typ {
+						storedWithState[f] = true
+					}
+				}
+			}
+		}
+	}
+	cb.untilF = fieldByRole(cb.typ, "until", isTimeT, func(f string) bool { return storedWithState[f] })
+	cb.lastF = fieldByRole(cb.typ, "lastCheck", isTimeT, func(f string) bool { return !storedWithState[f] })
+	cb.rcF = fieldByRole(cb.typ, "rc", func(t types.Type) bool {
+		n := derefNamed(t)
+		return n != nil && n.Obj().Name() == "ratioController"
+	}, nil)
+	isHandlerT := func(t types.Type) bool { return isHTTPHandlerType(t) }
+	fbOpt := fieldSetByOption(p, "cbreaker", "Fallback", cb.typ)
+	cb.fallbackF = fieldByRole(cb.typ, "fallback", isHandlerT, func(f string) bool { return f == fbOpt })
+	cb.nextF = fieldByRole(cb.typ, "next", isHandlerT, func(f string) bool { return f != cb.fallbackF })
+	cb.metricsF = fieldByRole(cb.typ, "metrics", func(t types.Type) bool { n := derefNamed(t); return n != nil && n.Obj().Name() == "RTMetrics" }, nil)
+	isSE := func(t types.Type) bool { return typeIs(t, modPath+"/cbreaker", "SideEffect") }
+	otOpt, osOpt := fieldSetByOption(p, "cbreaker", "OnTripped", cb.typ), fieldSetByOption(p, "cbreaker", "OnStandby", cb.typ)
+	cb.onTrippedF = fieldByRole(cb.typ, "onTripped", isSE, func(f string) bool { return f == otOpt })
+	cb.onStandbyF = fieldByRole(cb.typ, "onStandby", isSE, func(f string) bool { return f == osOpt })
+	for i, f := range []string{cb.untilF, cb.rcF, cb.lastF, cb.fallbackF, cb.nextF, cb.metricsF, cb.onTrippedF, cb.onStandbyF} {
+		if f == "" || structFieldType(cb.typ, f) == nil {
+			if i >= 3 {
+				r.Anchor(rule, "cbreaker.CircuitBreaker: field in the role of "+[]string{"", "", "", "fallback", "next", "metrics", "onTripped", "onStandby"}[i], "no field could be bound to this role (by name, type or option constructor)")
+				return nil
+			}
+			r.Anchor(rule, "cbreaker.CircuitBreaker: field in the role of "+[]string{"until", "rc", "lastCheck"}[i], "no field could be bound to this role (by name or by use)")
 			return nil
 		}
 	}
@@ -325,11 +362,11 @@ func runC05(p *Prog, r *Report) {
 	t := bts[0]
 	fb := func(in ssa.Instruction) bool {
 		cc, ok := isHandlerServe(in)
-		return ok && isFieldLoad(cc.Value, cb.typ, "fallback")
+		return ok && isFieldLoad(cc.Value, cb.typ, cb.fallbackF)
 	}
 	next := NewEvents(p, func(in ssa.Instruction) bool {
 		cc, ok := isHandlerServe(in)
-		return ok && isFieldLoad(cc.Value, cb.typ, "next")
+		return ok && isFieldLoad(cc.Value, cb.typ, cb.nextF)
 	})
 	onTrue := Reach(cb.serve, t.If, nil, func(e Edge) bool { return !(e.B == t.False.B && e.K == t.False.K) })
 	onFalse := Reach(cb.serve, t.If, nil, func(e Edge) bool { return !(e.B == t.True.B && e.K == t.True.K) })
@@ -435,10 +472,14 @@ func checkUntilArgs(p *Prog, r *Report, cb *cbInfo, rule string) {
 			var dur string
 			switch st {
 			case cb.T:
-				dur = "fallbackDuration"
+				dur = fieldByRole(cb.typ, "fallbackDuration", isDurationT, func(f string) bool { return f == fieldSetByOption(p, "cbreaker", "FallbackDuration", cb.typ) })
 			case cb.R:
-				dur = "recoveryDuration"
+				dur = fieldByRole(cb.typ, "recoveryDuration", isDurationT, func(f string) bool { return f == fieldSetByOption(p, "cbreaker", "RecoveryDuration", cb.typ) })
 			default:
+				continue
+			}
+			if dur == "" {
+				r.Anchor(rule, tn+": duration field of the "+cb.names[st]+" state", "not found by name or through its option constructor")
 				continue
 			}
 			n++
@@ -808,7 +849,7 @@ func runC18(p *Prog, r *Report) {
 			return false
 		}
 		f := cc.StaticCallee()
-		return f != nil && f.Name() == "Reset" && recvNamed(f) != nil && recvNamed(f).Obj().Name() == "RTMetrics" && isFieldLoad(cc.Args[0], cb.typ, "metrics")
+		return f != nil && f.Name() == "Reset" && recvNamed(f) != nil && recvNamed(f).Obj().Name() == "RTMetrics" && isFieldLoad(cc.Args[0], cb.typ, cb.metricsF)
 	}
 	ret := ReturnReachableAvoiding(fn, trip, isReset, nil)
 	checkResetComplete(p, r, "C18.R3")
@@ -817,7 +858,7 @@ func runC18(p *Prog, r *Report) {
 	var serveFn *ssa.Function
 	for _, m := range p.Methods(cb.typ) {
 		for _, c := range Calls(m) {
-			if cc, ok := isHandlerServe(c); ok && isFieldLoad(cc.Value, cb.typ, "next") {
+			if cc, ok := isHandlerServe(c); ok && isFieldLoad(cc.Value, cb.typ, cb.nextF) {
 				serveFn = m
 			}
 		}
@@ -828,7 +869,7 @@ func runC18(p *Prog, r *Report) {
 		r.Fn(FName(serveFn))
 		var nextCall ssa.Instruction
 		for _, c := range Calls(serveFn) {
-			if cc, ok := isHandlerServe(c); ok && isFieldLoad(cc.Value, cb.typ, "next") {
+			if cc, ok := isHandlerServe(c); ok && isFieldLoad(cc.Value, cb.typ, cb.nextF) {
 				nextCall = c
 			}
 		}
@@ -873,7 +914,7 @@ func runC18(p *Prog, r *Report) {
 		}
 	}
 	// decision table in the state setter
-	want := map[string]int64{"onTripped": cb.T, "onStandby": cb.S}
+	want := map[string]int64{cb.onTrippedF: cb.T, cb.onStandbyF: cb.S}
 	got := map[string]bool{}
 	stateParam := cb.setState.Params[1]
 	for _, c := range Calls(cb.setState) {
@@ -910,7 +951,7 @@ func runC18(p *Prog, r *Report) {
 		got[eff] = true
 		r.Check(known && okEdge, "C18.R4", tn+": side effect "+eff+" launched exactly on its state", p.InstrPos(call), eff+" only on the new-state == "+cb.names[ws]+" edge", "side effect "+eff+" is not launched exactly when the new state is its own")
 	}
-	r.Check(got["onTripped"] && got["onStandby"] && len(got) == 2, "C18.R4", tn+": state setter launches onTripped and onStandby (and nothing for recovering)", p.FuncPos(cb.setState), "both present", fmt.Sprintf("launches found: %v", got))
+	r.Check(got[cb.onTrippedF] && got[cb.onStandbyF] && len(got) == 2, "C18.R4", tn+": state setter launches onTripped and onStandby (and nothing for recovering)", p.FuncPos(cb.setState), "both present", fmt.Sprintf("launches found: %v", got))
 	// launcher: one goroutine, Exec once, nil-guarded
 	nGo, nExec := 0, 0
 	var goInstr *ssa.Go
